@@ -93,6 +93,7 @@ type vamResult struct {
 	runErr     error  // the flowgraph returned an error
 	panicMsg   string // the vector runtime panicked (in the calling goroutine)
 	panicFrame string
+	crash      bool // the panic would have happened in a goroutine without recover (process death)
 }
 
 var framesRE = regexp.MustCompile(`github\.com/brimdata/super/([^\s(]+(?:\([^)]*\))?[^\s(]*)\(`)
